@@ -99,7 +99,22 @@ CHECKS['C13'] = {
     'technique': 'bounded exhaustive configuration-space exploration; linearity decides all inputs via the full matrix',
 }
 
+CHECKS['C20'] = {
+    'text': 'A universe of ~240 (quick) / ~460 (thorough) recipes of sets, fields, interval products, grids, '
+            'partitions, weightings, tensor / discretized / product spaces, each built twice independently '
+            'plus near-misses: ALL ordered pairs for reflexivity, symmetry, != as negation, hash '
+            'consistency and agreement with the documented identity; transitivity decided on the whole '
+            'equality graph (every connected component a clique = all triples). Membership of every '
+            'element in every space; space.element over an input alphabet (own / foreign elements, '
+            'ndarrays of 7 dtypes in C/F/strided/read-only layouts, lists, scalars, wrong shapes); '
+            'astype / real_space / complex_space in all call sequences (cache histories); byaxis, '
+            'byaxis_in, element and product-space indexing over a complete index alphabet.',
+    'note': 'the universe is a finite alphabet of constructible objects, not all objects; documented-identity '
+            'oracle silent where the __eq__ docstrings are silent (counted as skipped)',
+    'technique': 'bounded exhaustive exploration (all pairs / equality-graph cliques / call histories) against a reference model',
+}
+
 _PENDING = 'check under construction in this session; not claimed until it runs quietly on the unchanged tree'
 NOT_APPLICABLE = dict((p, _PENDING) for p in
                       ['C01', 'C02', 'C04', 'C06', 'C11', 'C12',
-                       'C14', 'C15', 'C16', 'C17', 'C18', 'C19', 'C20'])
+                       'C14', 'C15', 'C16', 'C17', 'C18', 'C19'])
